@@ -19,7 +19,7 @@ import leg  # noqa: E402  (classification, env, merge; not modified)
 
 PKG = {"C21": "san21", "C34": "san34"}
 SHARDS = 4
-TIMEOUT = 2400  # per process; a timeout is inconclusive, never a violation
+TIMEOUT = 3600  # per process; a timeout is inconclusive, never a violation
 
 
 def main():
